@@ -338,3 +338,39 @@ Definition home_before_terminator (acc : list byte) (n1 : list atom) (x : byte) 
 Definition move_after_home (acc : list byte) (n1 : list atom) (x : byte) (n2 : list atom) (c : byte)
            (n3 : list atom) (d : byte) : list byte :=
   acc ++ render n1 ++ x :: render n2 ++ c :: render n3 ++ [d].
+
+(* ALL documented console noise, i.e. [win_noisy] plus the two shapes it leaves out: a
+   cursor-home redraw with no further letter behind it, and a cursor move in the gap right
+   after a re-printed/replaced character.  The full-strength statement of C16 for the
+   Windows reader quantifies over this relation; it is refuted (Props/C16.v). *)
+Inductive win_noisy_full : bool -> list byte -> list byte -> list byte -> Prop :=
+| wf_end stale acc n :
+    noise_ok n = true ->
+    win_noisy_full stale acc [] (render n)
+| wf_char (stale : bool) acc n c e s :
+    noise_ok n = true -> has_home n = false -> proto_letter c = true ->
+    (if stale then has_move n = false
+     else has_move n && has_nl n && nonempty acc && last_is acc c = false) ->
+    win_noisy_full false (acc ++ [c]) e s ->
+    win_noisy_full stale acc (c :: e) (render n ++ c :: s)
+| wf_reprint stale acc0 c n e s :
+    proto_letter c = true ->
+    noise_ok n = true -> has_home n = false -> has_move n = true ->
+    has_nl n || stale = true ->
+    win_noisy_full true (acc0 ++ [c]) e s ->
+    win_noisy_full stale (acc0 ++ [c]) e (render n ++ c :: s)
+| wf_home stale acc n1 x n2 c e s :
+    noise_ok n1 = true -> has_move n1 = false -> has_home n1 = true -> proto_letter x = true ->
+    noise_ok n2 = true -> has_move n2 = true -> has_nl n2 = true -> has_home n2 = false ->
+    proto_letter c = true ->
+    win_noisy_full true (acc ++ [c]) e s ->
+    win_noisy_full stale acc (c :: e) (render n1 ++ x :: render n2 ++ c :: s)
+| wf_home_at_end stale acc n1 x n2 :
+    noise_ok n1 = true -> has_move n1 = false -> has_home n1 = true -> proto_letter x = true ->
+    noise_ok n2 = true -> has_move n2 = true -> has_nl n2 = true -> has_home n2 = false ->
+    win_noisy_full stale acc [] (render n1 ++ x :: render n2)
+| wf_move_when_stale acc n c e s :
+    noise_ok n = true -> has_home n = false -> has_move n = true -> has_nl n = false ->
+    proto_letter c = true ->
+    win_noisy_full false (acc ++ [c]) e s ->
+    win_noisy_full true acc (c :: e) (render n ++ c :: s).
